@@ -1,5 +1,105 @@
-(** C13 — Text handler lines parse back unambiguously (statement file; proofs in Proofs/LoggerText*.v). *)
+(** C13 — Text handler lines parse back unambiguously; values cannot forge fields or lines.
+
+    Model: Model/LoggerText.v (logger/text_handler.go, colour off).  Specification:
+    Lib/TextTok.v ([tokenize], [expected_pairs], [wf_chain], [wf_record]) with
+    strconv.Unquote from Lib/GoQuote.v.  The three Unicode predicates are arbitrary
+    functions: nothing at all is assumed about them (the same [isSpace] is used by the
+    handler and by the reader; [isPrint] and strconv's [sp_print] only decide *when* and
+    *how* something is escaped, never whether it reads back). *)
 From Coq Require Import List NArith Bool.
 Import ListNotations.
-From Glb Require Import Lib.Utf8 Lib.GoQuote Lib.TextTok Model.LoggerText.
+From Glb Require Import Lib.Utf8 Lib.GoQuote Lib.TextTok Model.LoggerText Proofs.LoggerTextQ Proofs.LoggerTextP.
 Open Scope N_scope.
+
+(** The theorem.  For every With/WithGroup chain (group names non-empty) and every record -
+    arbitrary bytes (< 256) in message, keys, group names, string-like values; arbitrary
+    attribute trees; stdlib-rendered numbers/durations/times being non-empty bare items -
+    Handle writes [body ++ "\n"], [body] holds no newline, and the tokenizer reads [body]
+    back as exactly time, level, [source], msg and the (dotted path, value) pairs in order. *)
+Theorem C13_text_line_faithful :
+  forall (isSpace isPrint sp_print : N -> bool) (chain : list deriv) (rec : record),
+    wf_chain isSpace chain = true -> wf_record isSpace rec = true ->
+    exists body,
+      handle isSpace isPrint sp_print (derive isSpace isPrint sp_print chain) rec = body ++ [10] /\
+      ~ In 10 body /\
+      tokenize isSpace body = Some (expected_pairs chain rec).
+Proof. exact text_line_faithful. Qed.
+Print Assumptions C13_text_line_faithful.
+
+(** Stage 1: strconv.Unquote reads back strconv.AppendQuote, for every byte string and
+    every continuation; a quoted string holds no newline. *)
+Theorem C13_unquote_quote :
+  forall (sp_print : N -> bool) (s rest : list N),
+    wf_bytes s = true ->
+    unquote_prefix (quote sp_print s ++ rest) = Some (s, rest) /\ ~ In 10 (quote sp_print s).
+Proof. intros sp s rest H. split; [exact (unquote_quote sp s rest H)|exact (quote_no_newline sp s)]. Qed.
+Print Assumptions C13_unquote_quote.
+
+(** Stage 2: whatever appendTextString copies verbatim is a non-empty bare item and
+    scanning it stops exactly at its end. *)
+Theorem C13_bare_is_safe :
+  forall (isSpace isPrint : N -> bool) (s : list N),
+    s <> [] -> needs_quote isSpace isPrint s = false ->
+    is_bare isSpace s = true /\ forall rest, sep_ok rest -> bare_span (s ++ rest) = (s, rest).
+Proof. intros sp pr s. exact (bare_is_safe sp pr (fun _ => false) s). Qed.
+Print Assumptions C13_bare_is_safe.
+
+(** Stage 3, per token: a rendered key=value followed by a space or the end is consumed
+    exactly and yields the pair, for every key and value text. *)
+Theorem C13_token_boundary :
+  forall (isSpace isPrint sp_print : N -> bool) (k v rest : list N),
+    wf_bytes k = true -> wf_bytes v = true -> (rest = [] \/ exists r, rest = 32 :: r) ->
+    parse_token isSpace (text_string isSpace isPrint sp_print k ++ 61 :: text_string isSpace isPrint sp_print v ++ rest)
+    = Some ((k, v), rest).
+Proof.
+  intros sp pr spr k v rest Hk Hv Hr. apply (token_boundary sp); try (apply item_of_text_string; assumption).
+  destruct Hr as [->|[r ->]]; [apply sep_ok_nil|apply sep_ok_32].
+Qed.
+Print Assumptions C13_token_boundary.
+
+(** ---- non-vacuity: a small concrete oracle (U+0085, U+00A0, U+2028 are spaces; U+0080..U+00A0,
+    U+00AD and the spaces do not print) and hostile inputs ---- *)
+Definition ex_space (r : N) : bool := (r =? 133) || (r =? 160) || (r =? 8232).
+Definition ex_print (r : N) : bool := negb (ex_space r) && negb (r <? 161) && negb (r =? 173).
+
+Definition ex_chain : list deriv :=
+  [DGroup [97; 46; 98];                                   (* group name "a.b" *)
+   DAttrs [([113], VStr [34; 255])];                      (* q = DQUOTE + invalid byte 0xff *)
+   DGroup [99; 32; 100]].                                 (* group name "c d" *)
+Definition ex_rec : record :=
+  mkRecord [50; 48; 50; 51] LError (Some [109; 32; 97; 47; 120; 61; 46; 103; 111; 58; 55])   (* "m a/x=.go:7" *)
+    [104; 105; 32; 107; 61; 118; 10; 116; 105; 109; 101; 61; 120]                            (* "hi k=v\ntime=x" *)
+    [([107], VStr [97; 10; 98]);                          (* newline in a value *)
+     ([], VStr []);                                       (* empty key, empty value *)
+     ([34; 107; 34], VStr [34; 118; 34]);                 (* DQUOTE-prefixed key and value *)
+     ([103; 32; 49], VGroup [([], VGroup [([120], VVerbatim [52; 50])]);    (* inline group *)
+                             ([121], VStr [194; 160]);                     (* U+00A0 *)
+                             ([122], VStr [226; 128; 168; 239; 191; 189]); (* U+2028, U+FFFD *)
+                             ([101], VGroup [])]);                         (* empty group *)
+     ([100], VVerbatim [49; 46; 53; 194; 181; 115])].      (* 1.5µs *)
+
+Example C13_example_wf : wf_chain ex_space ex_chain = true /\ wf_record ex_space ex_rec = true.
+Proof. vm_compute. split; reflexivity. Qed.
+
+Example C13_example_line :
+  let line := handle ex_space ex_print ex_print (derive ex_space ex_print ex_print ex_chain) ex_rec in
+  tokenize ex_space (removelast line) = Some (expected_pairs ex_chain ex_rec)
+  /\ length (expected_pairs ex_chain ex_rec) = 12%nat
+  /\ last line 0 = 10.
+Proof. vm_compute. repeat split; reflexivity. Qed.
+
+(** the forged text of the message stays inside one quoted item *)
+Example C13_example_msg :
+  text_string ex_space ex_print ex_print [104; 105; 32; 107; 61; 118; 10; 116; 105; 109; 101; 61; 120]
+  = [34; 104; 105; 32; 107; 61; 118; 92; 110; 116; 105; 109; 101; 61; 120; 34].
+Proof. vm_compute. reflexivity. Qed.
+
+(** a raw rendering without quoting is rejected or read differently by the tokenizer:
+    the specification is not trivially satisfied *)
+Example C13_example_spec_rejects :
+  tokenize ex_space [109; 115; 103; 61; 97; 32; 98] = None                         (* msg=a b *)
+  /\ tokenize ex_space [107; 61; 34; 97; 34; 58; 55] = None                        (* k="a":7 *)
+  /\ tokenize ex_space [107; 61; 97; 194; 160; 98] = None                          (* k=a<U+00A0>b *)
+  /\ tokenize ex_space [107; 61; 97; 10; 98] = None                                (* k=a<newline>b *)
+  /\ tokenize ex_space [107; 61; 118; 32; 32; 120; 61; 49] = None.                 (* double space *)
+Proof. vm_compute. repeat split; reflexivity. Qed.
